@@ -23,7 +23,7 @@ RULE = ('cases = generated chains of 2-4 concurrent writers (sequential interlea
         'non-trivial = a resolution that ran with old != committed != new and >= 1 reference in the state; distinct by case hash')
 ASSUMPTIONS = ['the module-level caches of ZODB.ConflictResolution are cleared at the top of every case',
                'the undo path of resolution is exercised numerically in C06']
-BUDGET = {'quick': {'examples': 800, 'workers': 8},
+BUDGET = {'quick': {'examples': 3000, 'workers': 8},
           'thorough': {'examples': 12000, 'workers': 16}}
 
 REFKEYS = ['r_oc', 'r_o', 'r_w', 'r_x', 'c_oc', 'c_o', 'c_w', 'c_x', 'r_nest', 'c_nest']
@@ -361,9 +361,14 @@ def execute(case):
             except UndoError:
                 tmu.abort()
                 okay = False
-            if undone == current and False:
+            if undone == current:
+                # nothing changed since: the undo copies the previous state, no merge is needed
+                # (value-equal states may still differ in bytes, then the resolver runs: either is fine)
+                out.label('undo-of-unchanged-state')
+                okay = None
+            if okay is None:
                 pass
-            if not okay:
+            elif not okay:
                 out.fail((PROPERTY, 'undo-resolution', 'refused'), 'undo of a resolvable intermediate change was refused')
             elif len(vclasses.RESOLVE_LOG) != 1:
                 out.fail((PROPERTY, 'undo-resolution', 'resolver-call-count'), 'resolver called %d times during undo' % len(vclasses.RESOLVE_LOG))
